@@ -107,7 +107,7 @@ def run(tier, seed, log, model_runs=True, enlarged=False):
                                    "; fixed programs: every string over {a, double quote, backslash, newline, single quote} up to "
                                    "length 4 (thorough: 5), and multi-line strings with white-space-only lines, trailing white space and CR LF line ends, as a plain and as a language-tagged value; "
                                    "the text serialize(format='provn') returns is read as well whenever it is not the get_provn() text",
-                         extra_cases=progs.string_sweep_programs(sweep) + progs.scoping_programs(("ExportProvn",)) + progs.value_grid_programs(("ExportProvn",)) + progs.subtype_programs(("ExportProvn",)) + progs.equal_values_programs(("ExportProvn",)),
+                         extra_cases=progs.same_text_programs(("ExportProvn",)) + progs.string_sweep_programs(sweep) + progs.scoping_programs(("ExportProvn",)) + progs.value_grid_programs(("ExportProvn",)) + progs.subtype_programs(("ExportProvn",)) + progs.equal_values_programs(("ExportProvn",)),
                          theorem_note="C06_* over Provn.escape_provn / ProvnSpec.short_string, long_string")
 
 
